@@ -270,11 +270,16 @@ impl Runner {
             "[{} {} {}] states={} transitions={} probes={} grid_evaluations={} wall={:.1}s caps={:?}",
             self.prop, self.tier, self.build, self.states, self.transitions, self.probes, self.evaluations, self.t0.elapsed().as_secs_f64(), self.caps
         );
-        if !self.machinery.is_empty() {
+        if !self.machinery.is_empty() && self.violations.is_empty() {
             for m in &self.machinery {
                 println!("MACHINERY-ERROR: {m}");
             }
             return 2;
+        }
+        // a violation that was found (and reproduced) stands even if, because of it, other parts of the run
+        // could not do their work (seeds that cannot be built, goals that were never reached)
+        for m in &self.machinery {
+            println!("MACHINERY-NOTE (not deciding, a violation is reported below): {m}");
         }
         let mut printed: Vec<String> = vec![];
         for v in &self.known_hits {
